@@ -154,7 +154,7 @@ func classifyStacks(dump, fn string) (bool, string) {
 	}
 	var why []string
 	for _, g := range gs {
-		if !parkedState(g.State) {
+		if !parkedState(g.State) && !blockedInFifoOpen(g) {
 			return false, "goroutine " + g.ID + " is " + g.State
 		}
 		top := ""
@@ -170,4 +170,10 @@ func classifyStacks(dump, fn string) (bool, string) {
 		why = append(why, g.State+" in "+top)
 	}
 	return true, strings.Join(why, "; ")
+}
+
+// blockedInFifoOpen: a goroutine sitting in open(2) on a FIFO. Only a process
+// opening the other end can complete it, and that is the passive harness.
+func blockedInFifoOpen(g gor) bool {
+	return g.State == "syscall" && (g.has("syscall.openat") || g.has("syscall.Open")) && g.has("os.OpenFile")
 }
